@@ -12,9 +12,11 @@ exactly why they are not atomic in the implementation either.
 explained: micro-steps of pending operations are interleaved arbitrarily, each operation's
 steps lie between its call and its return, and the returned result must be the computed one.
 Operations that never return may have taken any number of their steps (including none).
-W.l.o.g. steps are taken "just in time", immediately before a return event that needs them
-(steps commute to the right over call events and over return events of already finished
-operations), so the search branches only there.
+Steps are taken "just in time", immediately before a return event that needs them (steps commute
+to the right over call events), so the search branches only there.  Over the return event of an
+already finished operation a step commutes only if `retire` does not disable it: that event is
+tried as it stands first, and only if this fails are the other pending operations' steps tried
+before it.
 
 With `quiesce = true` (the run ended in a deadlock: every thread that has not finished is
 blocked) the search additionally demands a final state in which every operation that never
@@ -120,7 +122,24 @@ def search (quiesce : Bool) : Nat → Memo K → σ → Pend P → List (Event O
     | none => (none, m)
     | some p =>
       match sem.fin p with
-      | some o => if o == out then search quiesce fuel m (sem.retire s p) (erase t pend) rest else (none, m)
+      | some o =>
+        if o == out then
+          match search quiesce fuel m (sem.retire s p) (erase t pend) rest with
+          | (some r, m') => (some r, m')
+          | (none, m') =>
+            -- The return event itself changes the state (`retire`: "one fewer send in flight"), so steps of the
+            -- OTHER pending operations that are enabled only before it (a receive that stops at the hole of an
+            -- in-flight send) do not commute to the right over it: before giving up, try them first.
+            let n := rest.length + 1
+            if m'.contains n (sem.key s pend) then (none, m')
+            else
+              match firstSomeM (fun (c : Nat × σ × P) m =>
+                      if pruneOk sem c.1 c.2.2 (.ret t out :: rest)
+                      then search quiesce fuel m c.2.1 (setP c.1 c.2.2 pend) (.ret t out :: rest) else (none, m))
+                    (candidates sem s pend) m' with
+              | (some r, m'') => (some r, m'')
+              | (none, m'') => (none, m''.insert n (sem.key s pend))
+        else (none, m)
       | none =>
         let n := rest.length + 1
         if m.contains n (sem.key s pend) then (none, m)
